@@ -100,7 +100,9 @@ def run(ck):
         return ["MultiClass", "Id", "LBrace"] + inner + ["RBrace"]
     for _ in range(1 if quick else 6):
         for kind in ["then", "else", "foreach", "let", "defset", "multiclass"]:
-            for nt in (mc_nts if kind == "multiclass" else stmt_nts):
+            # (every statement form in every container, also those the container does not admit - a class, defset, multiclass or
+            # include directly in a multiclass body is not derivable and must be rejected; the recogniser decides)
+            for nt in stmt_nts:
                 inner = gdoc.sentence(rng, nt, budget=rng.choice([2, 3, 4]))
                 for braces in (False, True):
                     seqs.append(("nest", wrap(kind, inner, braces)))
